@@ -30,6 +30,7 @@ type c14Src struct {
 	mcPeer       int
 	mcPort       int
 	datagramSize int
+	left2        int // receive-side stream offset (mcast-write)
 }
 
 func runC14(c *vf.Case) {
@@ -171,6 +172,7 @@ func runC14(c *vf.Case) {
 	L := min(total, r.Range(100, 2000))
 	c.Logf("chain of %d operations over %v", L, chosen)
 	done := 0
+	zeroLen := 0
 	deferredHops := map[string]int{}
 	transitions := map[string]bool{}
 	lastKind := ""
@@ -230,11 +232,31 @@ func runC14(c *vf.Case) {
 		}
 		switch s.kind {
 		case "tcp-read", "fifo-read", "file-read":
-			w.NextOnDone = func(op *sim.Op) { checkStream(op, true); finish(s, op.Started, prevKind) }
-			w.StartStream(s.o, 0, false, r.Range(1, 16), sim.BNone, nil, false)
+			size := r.Range(1, 16)
+			if r.Chance(1, 12) && s.kind != "file-read" {
+				size = 0 // a zero-length operation completes immediately too; only the nesting matters for it
+				zeroLen++
+			}
+			w.NextOnDone = func(op *sim.Op) {
+				if len(op.Buf) > 0 {
+					checkStream(op, true)
+				}
+				finish(s, op.Started, prevKind)
+			}
+			w.StartStream(s.o, 0, false, size, sim.BNone, nil, false)
 		case "tcp-write", "fifo-write", "file-write":
-			w.NextOnDone = func(op *sim.Op) { checkStream(op, false); finish(s, op.Started, prevKind) }
-			w.StartStream(s.o, 1, false, r.Range(1, 8), sim.BNone, nil, false)
+			size := r.Range(1, 8)
+			if r.Chance(1, 12) && s.kind != "file-write" {
+				size = 0
+				zeroLen++
+			}
+			w.NextOnDone = func(op *sim.Op) {
+				if len(op.Buf) > 0 {
+					checkStream(op, false)
+				}
+				finish(s, op.Started, prevKind)
+			}
+			w.StartStream(s.o, 1, false, size, sim.BNone, nil, false)
 		case "accept":
 			w.NextOnDone = func(op *sim.Op) {
 				if op.Err != nil || op.Accepted == nil {
@@ -285,11 +307,17 @@ func runC14(c *vf.Case) {
 			returned = true
 		case "mcast-write":
 			buf := make([]byte, s.datagramSize)
+			vf.GenFill(buf, s.gen, s.off)
+			s.off += len(buf)
 			returned := false
+			calls := 0
 			s.mc.AsyncWrite(buf, netip.AddrPortFrom(netip.AddrFrom4([4]byte{127, 0, 0, 1}), uint16(s.mcPort)), func(err error, n int) {
 				w.EnterCB()
 				deferred := returned
-				if err != nil || n != len(buf) {
+				calls++
+				if calls > 1 {
+					c.Failf("callback-invoked-twice/mcast-write", "the callback of one multicast-peer write was invoked %d times (another write's completion was routed to it)", calls)
+				} else if err != nil || n != len(buf) {
 					c.Failf("deferred-hop-result-differs/mcast-write", "multicast write (deferred=%v) completed with err=%v n=%d", deferred, err, n)
 				} else {
 					finish(s, deferred, prevKind)
@@ -317,7 +345,20 @@ func runC14(c *vf.Case) {
 				w.PeerDrain(s.o)
 			}
 			if s.kind == "mcast-write" {
-				_, _, _ = rawpeer.Drain(s.mcPeer, 1<<20)
+				for {
+					d := make([]byte, 2048)
+					n, _, err := syscall.Recvfrom(s.mcPeer, d, 0)
+					if err != nil || n <= 0 {
+						break
+					}
+					for i := 0; i < n; i++ {
+						if d[i] != vf.Gen(s.gen, s.left2+i) {
+							c.Failf("deferred-hop-result-differs/mcast-write", "datagram received from the multicast peer at stream offset %d is not the one written (a deferred write sent another write's buffer)", s.left2)
+							break
+						}
+					}
+					s.left2 += n
+				}
 			}
 		}
 		w.Poll()
@@ -335,6 +376,7 @@ func runC14(c *vf.Case) {
 	}
 	c.Max("max_depth_seen", int64(w.MaxDepth))
 	c.Count("chain_operations", done)
+	c.Count("zero_length_operations", zeroLen)
 	hops := 0
 	for k, v := range deferredHops {
 		c.Count("deferred_hops_"+k, v)
